@@ -2,7 +2,7 @@
 use crate::ast::*;
 use crate::choice::{Choices, ChoicesExt};
 use crate::common::*;
-use crate::props::c01::{gen_pcase, op_names, pcase_json, script_profile};
+use crate::props::c01::{gen_pcase, maybe_lengthen, op_names, pcase_json, script_profile};
 use crate::run::*;
 use serde_json::json;
 
@@ -20,7 +20,8 @@ pub fn prop() -> Prop {
 }
 
 fn run_pipeline(c: &mut dyn Choices, ctx: &Ctx) -> Outcome {
-  let case = gen_pcase(c, 4, true);
+  let mut case = gen_pcase(c, 4, true);
+  maybe_lengthen(c, &mut case);
   let res = run_pcase(&case, true);
   let (_, mut labels) = script_profile(&case, res.as_ref().ok());
   let mut nt = false;
